@@ -21,7 +21,8 @@ import (
 // case: {"cls": ["l","u","d","o",...]}  abstract rune classes (TLC), or {"bytes":[...]} (rand)
 // conc: {"input": bytes, "valid": bool, "cls": classes per rune (computed with package unicode)}
 // obs : {"panicked","panic_msg","panic_site","words": [bytes...], "lens": runes per word, "again": second call equal,
-//        "conv_panicked","conv_site","conv_again","conv_alias_equal"}
+//
+//	"conv_panicked","conv_site","conv_again","conv_alias_equal"}
 type camelFam struct{}
 
 func init() { core.Register("camel", camelFam{}) }
